@@ -64,6 +64,7 @@ enum Kind {
     RandNLike,
     Dropout,
     If,
+    Loop,
 }
 
 /// Body of one branch of an `If` (exactly one operator producing the branch output,
@@ -78,6 +79,37 @@ enum Body {
     ConstId,
     /// a nested `If` whose condition is a `true` initializer of the subgraph
     Nested(Box<IfBody>),
+    /// two operators: `RandomUniform` → `Neg` → branch output
+    RandNeg,
+    /// `Identity(<initializer>)` is the branch output; a `RandomUniform` whose output nobody uses
+    /// sits next to it (the branch value is deterministic, the flag is not)
+    UnusedRand,
+    /// a nested `Loop` (one iteration, loop-carried value initialised from a subgraph initializer)
+    Loop(Box<Body>),
+}
+
+/// Own-flag tree of a `Loop` whose body computes the carried value with `b`:
+/// one subgraph holding the `Identity` that produces the condition and the operators of `b`.
+fn loop_tree(b: &Body) -> String {
+    format!("1.1.{}.1.0.{}", 1 + b.n_ops(), b.tree_ops())
+}
+
+/// ONNX `Loop` node: no trip count, no condition input (defaults: run while the body says so),
+/// the body sets the condition to `false`, so it runs exactly once; `v_init` is the carried value.
+fn loop_node(b: &Body, v_init: &str, out: &str, rows: usize, seeds: bool, tag: &str) -> Node {
+    let mut g = b.to_onnx(rows, seeds, &format!("{tag}l"));
+    let fls = format!("lf{tag}");
+    let cnd = format!("lc{tag}");
+    g.initializers.push(Tensor::bools(&fls, &[], &[false]));
+    g.nodes.insert(0, Node::new("Identity", &format!("lci{tag}"), &[&fls], &[&cnd]));
+    g.inputs = vec![
+        ValueInfo::fixed(&format!("lit{tag}"), dt::INT64, &[]),
+        ValueInfo::fixed(&format!("lcin{tag}"), dt::BOOL, &[]),
+        ValueInfo::fixed(&format!("lv{tag}"), dt::FLOAT, &[rows as i64, COLS as i64]),
+    ];
+    let body_out = g.outputs.remove(0);
+    g.outputs = vec![ValueInfo::fixed(&cnd, dt::BOOL, &[]), body_out];
+    Node::new("Loop", &format!("lp{tag}"), &["", "", v_init], &[out]).attr("body", Attr::Graph(g))
 }
 
 #[derive(Clone, Debug)]
@@ -88,18 +120,30 @@ struct IfBody {
 
 impl Body {
     /// own-flag tree in prefix-count encoding: `own.nsubs(.nops(.T)*)*`
-    fn tree(&self) -> String {
+    /// number of operators this body puts into its subgraph
+    fn n_ops(&self) -> usize {
+        match self {
+            Body::RandNeg | Body::UnusedRand => 2,
+            _ => 1,
+        }
+    }
+    /// the trees of those operators, `.`-joined
+    fn tree_ops(&self) -> String {
         match self {
             Body::RandU => "0.0".into(),
             Body::NegCap(_) | Body::ConstId => "1.0".into(),
             Body::Nested(b) => b.tree(),
+            Body::RandNeg => "0.0.1.0".into(),
+            Body::UnusedRand => "1.0.0.0".into(),
+            Body::Loop(b) => loop_tree(b),
         }
     }
     fn deep_det(&self) -> bool {
         match self {
-            Body::RandU => false,
+            Body::RandU | Body::RandNeg | Body::UnusedRand => false,
             Body::NegCap(_) | Body::ConstId => true,
             Body::Nested(b) => b.deep_det(),
+            Body::Loop(b) => b.deep_det(),
         }
     }
     fn caps(&self, out: &mut Vec<usize>) {
@@ -113,21 +157,31 @@ impl Body {
                 b.then_b.caps(out);
                 b.else_b.caps(out);
             }
+            Body::Loop(b) => b.caps(out),
             _ => {}
         }
     }
     /// does the branch that is taken (conditions are all true → `then`) end in a random op?
     fn taken_random(&self) -> bool {
         match self {
-            Body::RandU => true,
+            Body::RandU | Body::RandNeg => true,
             Body::Nested(b) => b.then_b.taken_random(),
+            Body::Loop(b) => b.taken_random(),
             _ => false,
         }
     }
     fn depth(&self) -> usize {
         match self {
             Body::Nested(b) => 1 + b.then_b.depth().max(b.else_b.depth()),
+            Body::Loop(b) => 1 + b.depth(),
             _ => 0,
+        }
+    }
+    fn has_loop(&self) -> bool {
+        match self {
+            Body::Loop(_) => true,
+            Body::Nested(b) => b.then_b.has_loop() || b.else_b.has_loop(),
+            _ => false,
         }
     }
     /// ONNX subgraph computing this branch; `tag` makes names unique.
@@ -157,6 +211,32 @@ impl Body {
                 g.initializers.push(Tensor::bools(&c, &[], &[true]));
                 g.nodes.push(b.to_onnx_node(&c, &out, rows, seeds, &format!("{tag}n")));
             }
+            Body::RandNeg => {
+                let mid = format!("bm{tag}");
+                let mut n = Node::new("RandomUniform", &format!("br{tag}"), &[], &[&mid])
+                    .attr("shape", Attr::Ints(vec![rows as i64, COLS as i64]));
+                if seeds {
+                    n = n.attr("seed", Attr::Float(4.5));
+                }
+                g.nodes.push(n);
+                g.nodes.push(Node::new("Neg", &format!("bn{tag}"), &[&mid], &[&out]));
+            }
+            Body::UnusedRand => {
+                let c = format!("bc{tag}");
+                g.initializers.push(Tensor::f32s(&c, &[rows as i64, COLS as i64], &vec![0.25; rows * COLS]));
+                g.nodes.push(Node::new("Identity", &format!("bi{tag}"), &[&c], &[&out]));
+                let mut n = Node::new("RandomUniform", &format!("br{tag}"), &[], &[&format!("bu{tag}")])
+                    .attr("shape", Attr::Ints(vec![rows as i64, COLS as i64]));
+                if seeds {
+                    n = n.attr("seed", Attr::Float(5.5));
+                }
+                g.nodes.push(n);
+            }
+            Body::Loop(b) => {
+                let c = format!("bl{tag}");
+                g.initializers.push(Tensor::f32s(&c, &[rows as i64, COLS as i64], &vec![1.5; rows * COLS]));
+                g.nodes.push(loop_node(b, &c, &out, rows, seeds, &format!("{tag}p")));
+            }
         }
         g.outputs = vec![ValueInfo::fixed(&out, dt::FLOAT, &[rows as i64, COLS as i64])];
         g
@@ -165,7 +245,13 @@ impl Body {
 
 impl IfBody {
     fn tree(&self) -> String {
-        format!("1.2.1.{}.1.{}", self.then_b.tree(), self.else_b.tree())
+        format!(
+            "1.2.{}.{}.{}.{}",
+            self.then_b.n_ops(),
+            self.then_b.tree_ops(),
+            self.else_b.n_ops(),
+            self.else_b.tree_ops()
+        )
     }
     fn deep_det(&self) -> bool {
         self.then_b.deep_det() && self.else_b.deep_det()
@@ -177,6 +263,56 @@ impl IfBody {
     }
 }
 
+/// Subgraphs of a top-level operator.
+#[derive(Clone, Debug)]
+enum Sub {
+    If(IfBody),
+    /// `Loop` whose body computes the carried value with this `Body`
+    Loop(Body),
+}
+
+impl Sub {
+    fn tree(&self) -> String {
+        match self {
+            Sub::If(b) => b.tree(),
+            Sub::Loop(b) => loop_tree(b),
+        }
+    }
+    fn deep_det(&self) -> bool {
+        match self {
+            Sub::If(b) => b.deep_det(),
+            Sub::Loop(b) => b.deep_det(),
+        }
+    }
+    fn caps(&self, out: &mut Vec<usize>) {
+        match self {
+            Sub::If(b) => {
+                b.then_b.caps(out);
+                b.else_b.caps(out);
+            }
+            Sub::Loop(b) => b.caps(out),
+        }
+    }
+    fn taken_random(&self) -> bool {
+        match self {
+            Sub::If(b) => b.then_b.taken_random(),
+            Sub::Loop(b) => b.taken_random(),
+        }
+    }
+    fn depth(&self) -> usize {
+        match self {
+            Sub::If(b) => b.then_b.depth().max(b.else_b.depth()),
+            Sub::Loop(b) => b.depth(),
+        }
+    }
+    fn has_loop(&self) -> bool {
+        match self {
+            Sub::If(b) => b.then_b.has_loop() || b.else_b.has_loop(),
+            Sub::Loop(_) => true,
+        }
+    }
+}
+
 #[derive(Clone, Debug)]
 enum NodeD {
     /// value node: dtype, rows (shape `[rows, 3]`)
@@ -185,7 +321,7 @@ enum NodeD {
     C(Dt, usize, Vec<i32>),
     /// `det` = the flag `is_deterministic()` must report (for an `If`: no operator at any
     /// nesting depth is flagged non-deterministic); `body` only for `Kind::If`.
-    O { kind: Kind, ins: Vec<Option<usize>>, outs: Vec<Option<usize>>, det: bool, seeded: bool, body: Option<IfBody> },
+    O { kind: Kind, ins: Vec<Option<usize>>, outs: Vec<Option<usize>>, det: bool, seeded: bool, body: Option<Sub> },
 }
 
 #[derive(Clone, Debug)]
@@ -234,8 +370,7 @@ impl GraphD {
     fn op_caps(&self, p: usize) -> Vec<usize> {
         let mut c = vec![];
         if let NodeD::O { body: Some(b), .. } = &self.nodes[p] {
-            b.then_b.caps(&mut c);
-            b.else_b.caps(&mut c);
+            b.caps(&mut c);
         }
         c
     }
@@ -342,7 +477,14 @@ impl GraphD {
                         Kind::RandULike => Node::new("RandomUniformLike", &opn, &ins_r, &outs_r),
                         Kind::RandNLike => Node::new("RandomNormalLike", &opn, &ins_r, &outs_r),
                         Kind::Dropout => Node::new("Dropout", &opn, &ins_r, &outs_r),
-                        Kind::If => body.as_ref().unwrap().to_onnx_node(ins_r[0], outs_r[0], rows, seeds, &id.to_string()),
+                        Kind::If => match body.as_ref().unwrap() {
+                            Sub::If(b) => b.to_onnx_node(ins_r[0], outs_r[0], rows, seeds, &id.to_string()),
+                            _ => unreachable!(),
+                        },
+                        Kind::Loop => match body.as_ref().unwrap() {
+                            Sub::Loop(b) => loop_node(b, ins_r[2], outs_r[0], rows, seeds, &id.to_string()),
+                            _ => unreachable!(),
+                        },
                     };
                     match kind {
                         Kind::RandU | Kind::RandN | Kind::RandULike | Kind::RandNLike => {
@@ -438,7 +580,8 @@ fn gen_graph(rng: &mut Rng, big: bool) -> GraphD {
     for _ in 0..n_ops {
         // choose a kind that is applicable
         for _attempt in 0..20 {
-            let k = rng.usize_below(if rand_heavy { 21 } else { 14 });
+            let k = rng.usize_below(if rand_heavy { 21 } else { 15 });
+            let k = if k == 14 && !rand_heavy { 19 } else { k };
             let kind = match k {
                 0 | 1 => Kind::Add,
                 2 => Kind::Sub,
@@ -450,7 +593,8 @@ fn gen_graph(rng: &mut Rng, big: bool) -> GraphD {
                 9 => Kind::CastI,
                 10 | 11 => Kind::Split,
                 12 | 17 => Kind::Dropout,
-                13 | 18 | 19 => Kind::If,
+                13 | 18 => Kind::If,
+                19 => Kind::Loop,
                 14 => Kind::RandU,
                 15 => Kind::RandN,
                 16 => Kind::RandULike,
@@ -483,10 +627,10 @@ fn gen_graph(rng: &mut Rng, big: bool) -> GraphD {
             let mut det = true;
             let mut seeded = true;
             let mut drop_second = false;
-            let mut body: Option<IfBody> = None;
+            let mut body: Option<Sub> = None;
             match kind {
-                Kind::If => {
-                    // condition: an existing bool value, or a fresh `true` constant
+                Kind::If | Kind::Loop => {
+                    // condition (used by `If` only): an existing bool value, or a fresh `true` constant
                     let cond = match pick(rng, &nodes, &|d, r| d == Dt::B && r == 99) {
                         Some(c) if rng.chance(1, 2) => c,
                         _ => {
@@ -497,10 +641,13 @@ fn gen_graph(rng: &mut Rng, big: bool) -> GraphD {
                     };
                     let rows = 1 + rng.usize_below(2);
                     fn gen_body(rng: &mut Rng, caps: &[usize], depth: usize) -> Body {
-                        match rng.usize_below(if depth < 2 { 6 } else { 4 }) {
-                            0 | 1 => Body::RandU,
+                        match rng.usize_below(if depth < 2 { 9 } else { 6 }) {
+                            0 => Body::RandU,
+                            1 => Body::RandNeg,
                             2 if !caps.is_empty() => Body::NegCap(*rng.pick(caps)),
-                            2 | 3 => Body::ConstId,
+                            2 | 3 | 4 => Body::ConstId,
+                            5 => Body::UnusedRand,
+                            6 => Body::Loop(Box::new(gen_body(rng, caps, depth + 1))),
                             _ => Body::Nested(Box::new(IfBody {
                                 then_b: gen_body(rng, caps, depth + 1),
                                 else_b: gen_body(rng, caps, depth + 1),
@@ -513,10 +660,22 @@ fn gen_graph(rng: &mut Rng, big: bool) -> GraphD {
                         .copied()
                         .filter(|&v| matches!(&nodes[v], NodeD::V(Dt::F, r) | NodeD::C(Dt::F, r, _) if *r == rows))
                         .collect();
-                    let b = IfBody { then_b: gen_body(rng, &caps, 0), else_b: gen_body(rng, &caps, 0) };
-                    det = b.deep_det();
-                    body = Some(b);
-                    ins = vec![Some(cond)];
+                    if kind == Kind::Loop {
+                        // carried value: an outer f32 value of that shape
+                        if caps.is_empty() {
+                            continue;
+                        }
+                        let v_init = *rng.pick(&caps);
+                        let b = Sub::Loop(gen_body(rng, &caps, 0));
+                        det = b.deep_det();
+                        body = Some(b);
+                        ins = vec![None, None, Some(v_init)];
+                    } else {
+                        let b = Sub::If(IfBody { then_b: gen_body(rng, &caps, 0), else_b: gen_body(rng, &caps, 0) });
+                        det = b.deep_det();
+                        body = Some(b);
+                        ins = vec![Some(cond)];
+                    }
                     new_vals.push((Dt::F, rows));
                 }
                 Kind::Add | Kind::Sub | Kind::Mul => {
@@ -951,7 +1110,7 @@ fn nofold_check(g: &GraphD, out: &mut Out, vals: &Vals) {
         .filter(|&p| match &g.nodes[p] {
             NodeD::O { kind: Kind::RandU | Kind::RandN | Kind::RandULike | Kind::RandNLike, .. } => true,
             // an `If` whose taken branch (all conditions are true) ends in a random operator
-            NodeD::O { kind: Kind::If, body: Some(b), .. } => b.then_b.taken_random(),
+            NodeD::O { kind: Kind::If | Kind::Loop, body: Some(b), .. } => b.taken_random(),
             _ => false,
         })
         .flat_map(|p| g.op_outs(p))
@@ -1220,8 +1379,21 @@ fn main() {
         out.bucket(if has_rand { "graph:nondet" } else { "graph:det" });
         for p in g.op_ids() {
             if let NodeD::O { body: Some(b), det, .. } = &g.nodes[p] {
-                out.bucket(&format!("if:depth={}", b.then_b.depth().max(b.else_b.depth())));
-                out.bucket(if *det { "if:det" } else { "if:nondet" });
+                out.bucket(&format!("sub:depth={}", b.depth()));
+                out.bucket(match (b, *det) {
+                    (Sub::If(_), true) => "if:det",
+                    (Sub::If(_), false) => "if:nondet",
+                    (Sub::Loop(_), true) => "loop:det",
+                    (Sub::Loop(_), false) => "loop:nondet",
+                });
+                if matches!(b, Sub::If(_)) && b.has_loop() {
+                    out.bucket("loop-in-if");
+                }
+                if let Sub::Loop(lb) = b {
+                    if matches!(lb, Body::Nested(_)) {
+                        out.bucket("if-in-loop");
+                    }
+                }
                 if !g.op_caps(p).is_empty() {
                     out.bucket("if:captures");
                 }
